@@ -246,3 +246,123 @@ Example c12_nonvacuous :
   get_largest_connected_component {| p_ncol := 3; p_rows := [[1]; [0]; []] |} false [0; 0; 1] =
     Ok ({| p_ncol := 2; p_rows := [[1]; [0]] |}, [0; 1]).
 Proof. cbv zeta. repeat split; vm_compute; reflexivity. Qed.
+
+(** ** break_cycles WITHOUT a size bound (Proofs/BreakCyclesProofs.v) *)
+From SKN Require Import Proofs.BreakCyclesProofs.
+Set Warnings "-notation-overridden".
+
+(** Directed branch ([directed=True], or inferred on a non-symmetric pattern), for EVERY graph (rows may
+    contain duplicates and self-loops), every root list and every oracle answer satisfying the contract
+    of [connected_components(connection='strong')] (on the input for the call inside is_acyclic, on the
+    matrix without self-loops for the call inside break_cycles): the depth budget of the model is never
+    exhausted, and whatever is returned
+    (a) has the nodes of the input, only edges of the input, and no self-loop,
+    (b) has no simple directed cycle of any length,
+    (c) still reaches, from the root set, every node that the root set reaches in the input.
+    (An out-of-range root or a root set without outgoing edge gives IndexError / ValueError as in the
+    code; see [break_cycles_directed_total] for the converse.) *)
+Theorem break_cycles_directed_correct
+        (vo : bool) (g : graph) (root : list nat) (directed : option bool) (comp1 comp2 : list nat) :
+  wf_graph g ->
+  resolve_directed g directed = Ok true ->
+  components_contract g true comp1 ->
+  components_contract (drop_loops g) true comp2 ->
+  break_cycles vo g root directed comp1 comp2 <> Err OutOfFuel /\
+  forall h, break_cycles vo g root directed comp1 comp2 = Ok h ->
+    length h = length g /\
+    (forall u v, edge h u v -> edge g u v /\ u <> v) /\
+    (forall c, ~ dcycle h c) /\
+    (forall r v, In r root -> reach (edge g) r v -> exists r', In r' root /\ reach (edge h) r' v).
+Proof. exact (break_cycles_directed_correct_lemma vo g root directed comp1 comp2). Qed.
+Print Assumptions break_cycles_directed_correct.
+
+(** Roots in range with at least one outgoing edge: the model answers [Ok]. *)
+Theorem break_cycles_directed_total
+        (vo : bool) (g : graph) (root : list nat) (directed : option bool) (comp1 comp2 : list nat) :
+  resolve_directed g directed = Ok true -> length comp2 = length g ->
+  (forall r, In r root -> r < length g) -> 0 < out_degree g root ->
+  exists h, break_cycles vo g root directed comp1 comp2 = Ok h.
+Proof. exact (break_cycles_directed_total_lemma vo g root directed comp1 comp2). Qed.
+Print Assumptions break_cycles_directed_total.
+
+(** Non-vacuity: a 6-node digraph with a self-loop-free root 0 outside two strongly connected
+    components {1,2} and {3,4,5} (row 5 carries a duplicate entry); the hypotheses of
+    [break_cycles_directed_correct] hold for the canonical oracle answers and the result (two closing
+    edges removed) differs from the input. *)
+Example break_cycles_directed_nonvacuous :
+  let g := [[1]; [2]; [1; 3]; [4]; [5]; [3; 3; 5]] in
+  let comp1 := canon_labels g true in
+  let comp2 := canon_labels (drop_loops g) true in
+  wf_graph g /\ resolve_directed g None = Ok true /\
+  components_contract g true comp1 /\ components_contract (drop_loops g) true comp2 /\
+  comp2 = [0; 1; 1; 3; 3; 3] /\
+  break_cycles bc_und_visits_other_components g [0] None comp1 comp2 = Ok [[1]; [2]; [3]; [4]; [5]; []].
+Proof.
+  cbv zeta. split; [apply wf_b_sound; vm_compute; reflexivity|]. split; [vm_compute; reflexivity|].
+  split; [apply scc_contract_b_sound; vm_compute; reflexivity|].
+  split; [apply scc_contract_b_sound; vm_compute; reflexivity|].
+  split; vm_compute; reflexivity.
+Qed.
+
+(** Undirected branch ([directed=False], or inferred on a symmetric pattern), for EVERY symmetric graph
+    with canonical rows (no duplicate column index; self-loops allowed), every root list and every oracle
+    answer satisfying the contract of [connected_components] (connected components of the input for the
+    call inside is_acyclic, of the matrix without self-loops for the call inside break_cycles): the depth
+    budget is never exhausted, and whatever is returned
+    (a) has the nodes of the input, only edges of the input, no self-loop, and a symmetric pattern,
+    (b) contains no simple cycle on >= 3 nodes that a start node of the traversal reaches in the input;
+        the start nodes are [ustarts vo comp2 root]: the roots, followed — when the code visits the
+        components without root ([vo = true], the current source: [bc_und_visits_other_components]) — by
+        one node of every other component; with [vo = true] NO cycle is left at all,
+    (c) joins every two nodes that are joined in the input (in particular everything reachable from the
+        roots stays reachable from the roots). *)
+Theorem break_cycles_undirected_correct
+        (vo : bool) (g : graph) (root : list nat) (directed : option bool) (comp1 comp2 : list nat) :
+  wf_graph g -> (forall u, NoDup (row g u)) ->
+  resolve_directed g directed = Ok false ->
+  components_contract g false comp1 ->
+  components_contract (drop_loops g) false comp2 ->
+  break_cycles vo g root directed comp1 comp2 <> Err OutOfFuel /\
+  forall h, break_cycles vo g root directed comp1 comp2 = Ok h ->
+    length h = length g /\
+    (forall u v, edge h u v -> edge g u v /\ u <> v) /\
+    (forall u v, edge h u v -> edge h v u) /\
+    (forall c s, ucycle h c -> In s (ustarts vo comp2 root) -> ~ reach (edge g) s (hd 0 c)) /\
+    (vo = true -> forall c, ~ ucycle h c) /\
+    (forall a b, reach (edge g) a b -> reach (edge h) a b).
+Proof. exact (break_cycles_undirected_correct_lemma vo g root directed comp1 comp2). Qed.
+Print Assumptions break_cycles_undirected_correct.
+
+Theorem break_cycles_undirected_total
+        (vo : bool) (g : graph) (root : list nat) (directed : option bool) (comp1 comp2 : list nat) :
+  wf_graph g -> resolve_directed g directed = Ok false -> length comp2 = length g ->
+  (forall r, In r root -> r < length g) -> 0 < out_degree g root ->
+  exists h, break_cycles vo g root directed comp1 comp2 = Ok h.
+Proof. exact (break_cycles_undirected_total_lemma vo g root directed comp1 comp2). Qed.
+Print Assumptions break_cycles_undirected_total.
+
+(** Non-vacuity: 7 nodes, a triangle {0,1,2} with a pendant node 6 carrying a self-loop, and a second
+    triangle {3,4,5} without root; the hypotheses of [break_cycles_undirected_correct] hold for the
+    canonical oracle answers; with the components without root visited one edge of each triangle (and
+    the self-loop) is removed, without them the second triangle survives. *)
+Example break_cycles_undirected_nonvacuous :
+  let g := [[1; 2]; [0; 2]; [0; 1; 6]; [4; 5]; [3; 5]; [3; 4]; [2; 6]] in
+  let comp1 := canon_labels g false in
+  let comp2 := canon_labels (drop_loops g) false in
+  wf_graph g /\ (forall u, NoDup (row g u)) /\ resolve_directed g None = Ok false /\
+  components_contract g false comp1 /\ components_contract (drop_loops g) false comp2 /\
+  ustarts true comp2 [0] = [0; 3] /\
+  break_cycles true g [0] None comp1 comp2 = Ok [[2]; [2]; [0; 1; 6]; [5]; [5]; [3; 4]; [2]] /\
+  break_cycles false g [0] None comp1 comp2 = Ok [[2]; [2]; [0; 1; 6]; [4; 5]; [3; 5]; [3; 4]; [2]].
+Proof.
+  cbv zeta.
+  assert (Hwf : wf_graph [[1; 2]; [0; 2]; [0; 1; 6]; [4; 5]; [3; 5]; [3; 4]; [2; 6]])
+    by (apply wf_b_sound; vm_compute; reflexivity).
+  split; [exact Hwf|]. split.
+  { intros u. do 7 (destruct u as [|u]; [unfold row; cbn [nth]; repeat constructor; simpl; intuition lia|]).
+    unfold row. rewrite nth_overflow by (simpl; lia). constructor. }
+  split; [vm_compute; reflexivity|].
+  split; [apply wcc_contract_b_sound; [exact Hwf | vm_compute; reflexivity]|].
+  split; [apply wcc_contract_b_sound; [apply (wf_sub _ _ Hwf), drop_loops_sub | vm_compute; reflexivity]|].
+  split; [vm_compute; reflexivity|]. split; vm_compute; reflexivity.
+Qed.
